@@ -621,9 +621,15 @@ func (e *Env) evalCall(n *ast.CallExpr) Value {
 				if tn, ok := p.Scope().Lookup(f.Sel.Name).(*types.TypeName); ok && len(n.Args) == 1 {
 					return e.convertTo(e.eval(n.Args[0]), tn.Type())
 				}
+				// package-qualified spec function or macro declared in that package's contract file
+				if sf := e.x.ck.specFuncs[f.Sel.Name]; sf != nil && sf.PkgPath == p.Path() {
+					fname = f.Sel.Name
+				}
 			}
 		}
-		return e.fail("unsupported call %v in specification", n.Fun)
+		if fname == "" {
+			return e.fail("unsupported call %v in specification", n.Fun)
+		}
 	case *ast.ArrayType, *ast.StarExpr, *ast.ParenExpr:
 		return e.fail("unsupported conversion in specification")
 	}
@@ -751,6 +757,41 @@ func (e *Env) evalCall(n *ast.CallExpr) Value {
 			out.L[k] = app(un, l.Sort, v)
 		}
 		return out
+	case "sinkbuf":
+		// sinkbuf(w): the *bytes.Buffer an io.Writer value writes to, when that is known in this activation
+		v := e.eval(n.Args[0])
+		p, class := e.x.resolveSinkValue(e.st, v, 0)
+		if class != sinkKnown || p == nil || typeKey(p.Sub) != "bytes.Buffer" {
+			return e.fail("unknown identifier: sinkbuf of a writer that is not a known bytes.Buffer")
+		}
+		return e.x.ptrValue(e.st, types.NewPointer(p.Sub), p)
+	case "binsize":
+		// binsize(v): the number of bytes encoding/binary writes for the value held by interface v
+		// (known only when the interface value was made in this activation)
+		v := e.eval(n.Args[0])
+		if isInterface(v.T) && len(v.L) == 1 {
+			bv, ok := e.st.boxed[v.L[0].S]
+			if !ok {
+				return e.fail("unknown identifier: binsize of an interface value of unknown dynamic type")
+			}
+			v = bv
+		}
+		t := v.T
+		if pt, ok := t.Underlying().(*types.Pointer); ok {
+			t = pt.Elem()
+		}
+		if sl, ok := t.Underlying().(*types.Slice); ok {
+			es, ok := fixedBinSize(sl.Elem())
+			if !ok {
+				return e.fail("binsize of %v", t)
+			}
+			return scalar(it, mkArith("*", mkInt(int64(es)), v.sliceLen()))
+		}
+		sz, ok := fixedBinSize(t)
+		if !ok {
+			return e.fail("binsize of %v", t)
+		}
+		return scalar(it, mkInt(int64(sz)))
 	case "samearr":
 		a, b := e.eval(n.Args[0]), e.eval(n.Args[1])
 		return scalar(bt, mkEq(a.L[0], b.L[0]))
@@ -1096,4 +1137,38 @@ func mkQuant(q, v, body string) string {
 	out = reV.ReplaceAllString(out, "(- "+j+" "+best+")$1")
 	out = strings.ReplaceAll(out, ph, j)
 	return fmt.Sprintf("(%s ((%s Int)) %s)", q, j, out)
+}
+
+// fixedBinSize is encoding/binary.Size for fixed-size types.
+func fixedBinSize(t types.Type) (int, bool) {
+	switch u := t.Underlying().(type) {
+	case *types.Basic:
+		switch u.Kind() {
+		case types.Bool, types.Int8, types.Uint8:
+			return 1, true
+		case types.Int16, types.Uint16:
+			return 2, true
+		case types.Int32, types.Uint32, types.Float32:
+			return 4, true
+		case types.Int64, types.Uint64, types.Float64, types.Complex64:
+			return 8, true
+		case types.Complex128:
+			return 16, true
+		}
+		return 0, false
+	case *types.Array:
+		es, ok := fixedBinSize(u.Elem())
+		return es * int(u.Len()), ok
+	case *types.Struct:
+		n := 0
+		for i := 0; i < u.NumFields(); i++ {
+			fs, ok := fixedBinSize(u.Field(i).Type())
+			if !ok {
+				return 0, false
+			}
+			n += fs
+		}
+		return n, true
+	}
+	return 0, false
 }
